@@ -116,12 +116,15 @@ def persist_job(e, p):
     def case(m):
         c = {'n': n, 'tabs': tables_from_model(m, [[zb(b) for b in t] for t in tabs]), 'history': hist, 'final': final, 'mode': mode}
         if p.get('features'): c['features'] = p['features']
+        if p.get('novars'): c['novars'] = True
         return c
     def on_panic(e_, msg):
         m = sat_model(e_, True)
         if m is not None: report(e_, 'panic', what='round trip panics: %s' % msg[:200], case=case(m))
     e.hooks['on_panic'] = on_panic
-    adf, ra, bdd = A.make_adf(e, tabs, n)
+    # novars: the store holds only the nodes of the diagrams, no bare variable nodes created up front - the shape of a bridged ADF
+    # (Adf::from_biodivine_vector replays biodivine's node lists through Bdd::node and never calls Bdd::variable)
+    adf, ra, bdd = A.make_adf(e, tabs, n, create_vars=not p.get('novars'))
     for c in hist: c11.do_call(e, c, adf, ra, bdd, n)
     before = [(nd.f[0].f[0], nd.f[1].f[0], nd.f[2].f[0]) for nd in bdd_nodes(e, bdd)]
     ac_before = [tv(x) for x in adf.f[e.field('Adf', 'ac')].items]
@@ -151,7 +154,7 @@ def persist_job(e, p):
     viol_before = len(e.path_violations)
     st.violation = lambda kind, what, model, **kw: report(e, 'import-state', what=what, case=case(sat_model(e, True)), probe={'op': 'renode'})
     st.check_invariants()
-    adf2, ra2, bdd2 = A.make_adf(e, tabs, n)
+    adf2, ra2, bdd2 = A.make_adf(e, tabs, n, create_vars=not p.get('novars'))
     fresh = final_call(e, final, adf2, ra2, bdd2, n)
     if final in ('grounded', 'complete', 'stable', 'heu_a', 'heu_b') or final.startswith('nogood'):
         wrong = semjobs.answer_mismatch(e, p['fam'], tabs, n, final, got)
@@ -201,7 +204,7 @@ def replay(ctx, v):
     return 'not-reproduced', {'native_output': out}
 
 def key(v):
-    c = v['case']; return '%s:%s' % (v['kind'], json.dumps([c['mode'], c['n'], c['tabs'], c['history'], c['final'], c.get('features')]))
+    c = v['case']; return '%s:%s' % (v['kind'], json.dumps([c['mode'], c['n'], c['tabs'], c['history'], c['final'], c.get('features')] + (['novars'] if c.get('novars') else [])))
 
 
 def validate(ctx, tier, seed):
@@ -213,10 +216,11 @@ def validate(ctx, tier, seed):
         n = rng.choice([2, 3, 3])
         case = {'n': n, 'tabs': A.rand_tabs(rng, n), 'history': [rng.choice(HISTORY) for _ in range(rng.randint(0, 2))], 'final': rng.choice(FINALS),
                 'mode': rng.choice(['serde', 'nodelist'])}
+        if rng.random() < 0.4: case['novars'] = True
         out = nat.call(native_cmd(case), timeout=30)
         eng.reset_path([]); eng.path_violations = []
         try:
-            adf, ra, bdd = A.make_adf(eng, [[bool(b) for b in t] for t in case['tabs']], n)
+            adf, ra, bdd = A.make_adf(eng, [[bool(b) for b in t] for t in case['tabs']], n, create_vars=not case.get('novars'))
             for c in case['history']: c11.do_call(eng, c, adf, ra, bdd, n)
             if case['mode'] == 'nodelist': nadf, nb = rebuild_nodelist(eng, adf)
             else:
@@ -241,14 +245,20 @@ def spec(ctx, tier, seed):
             plans.append((mode, [rng.choice(HISTORY) for _ in range(rng.randint(0, 2))], f))
     for i, (mode, h, f) in enumerate(plans):
         jobs.append(Job('n2-%s-%s=>%s' % (mode, '+'.join(h) or 'fresh', f), mod, 'persist_job', {'n': 2, 'fam': ['sym', 'sym'], 'history': h, 'final': f, 'mode': mode}, stop_after_violations=40))
+    # bridged-shaped stores (no bare variable nodes): both round trips, fresh and grown
+    bplans = [('nodelist', [], 'grounded'), ('nodelist', ['complete'], 'stable'), ('serde', ['grounded'], 'heu_a'), ('nodelist', ['stable'], 'post_ops')]
+    if tier == 'thorough': bplans += [(mode, [rng.choice(HISTORY)], f) for mode in ('nodelist', 'serde') for f in FINALS]
+    for mode, h, f in bplans:
+        jobs.append(Job('n2-bridged-%s-%s=>%s' % (mode, '+'.join(h) or 'fresh', f), mod, 'persist_job', {'n': 2, 'fam': ['sym', 'sym'], 'history': h, 'final': f, 'mode': mode, 'novars': True}, stop_after_violations=40))
     fams = semjobs.families(3, 1, rng, 2 if tier == 'quick' else 6)
     for i, fam in enumerate(fams):
         mode, h, f = plans[(i * 5 + 1) % len(plans)]
         for mode in ('nodelist', 'serde'):
             jobs.append(Job('n3-%d-%s-%s=>%s' % (i, mode, '+'.join(h) or 'fresh', f), mod, 'persist_job', {'n': 3, 'fam': fam, 'history': h, 'final': f, 'mode': mode}, stop_after_violations=40))
+        jobs.append(Job('n3-%d-bridged-nodelist-%s=>%s' % (i, '+'.join(h) or 'fresh', f), mod, 'persist_job', {'n': 3, 'fam': fam, 'history': h, 'final': f, 'mode': 'nodelist', 'novars': True}, stop_after_violations=40))
     jobs.append(Job('canary', mod, 'persist_job', {'n': 2, 'fam': ['sym', 'sym'], 'history': [], 'final': 'grounded', 'mode': 'nodelist', 'canary': True}, stop_after_violations=1, canary=True))
     return {'jobs': jobs, 'level': 'model_checking', 'allowed_status': ('ok', 'panic', 'bound'),
             'assumptions': ASSUMPTIONS + ['serde_json encodes/decodes according to the derive attributes of Bdd and Adf (read from the source each run; validated natively against real serde_json on %d cases per run)' % (12 if tier == 'quick' else 40)],
-            'bounds': 'all 256 two-statement ADFs and seeded 3-statement families; export after histories of 0-2 calls from {%s}; both round trips; final queries {%s}; '
+            'bounds': 'all 256 two-statement ADFs and seeded 3-statement families, on native-shaped stores (variable nodes first) and bridged-shaped stores (only the diagrams nodes, as Adf::from_biodivine_vector leaves them); export after histories of 0-2 calls from {%s}; both round trips; final queries {%s}; '
                       'after import: node list and roots index by index, answer vs fresh object, audit of var_deps / count_cache / unique table and the C06 invariants' % (', '.join(HISTORY), ', '.join(FINALS)),
             'outside': 'serde_json encoder/decoder internals; the CLI half (never overwriting an export file) is file-system behaviour (C15); the web service string encoding of the node list is covered under C16'}
